@@ -87,6 +87,9 @@ func (v *Verdict) SetMaxSamples(n int) { v.maxSamples = n }
 
 // Violate records a violation; at most 3 witnesses are kept per signature (the count is exact).
 func (v *Verdict) Violate(signature, detail string, replay any) {
+	if len(detail) > 4000 {
+		detail = detail[:4000] + " ...[truncated]"
+	}
 	v.mu.Lock()
 	defer v.mu.Unlock()
 	v.sigCount[signature]++
